@@ -147,24 +147,25 @@ def congruence_facts(eng, formulas, hyps):
 HEAVY = ("xlogy", "ulog", "usqrt", "lgamma", "uexp", "upow", "Phi")
 
 
-def application_hints(eng, hyps, goal, ax, budget_pairs=300):
+def application_hints(eng, hyps, goal, ax, budget_pairs=400, budget_s=12.0):
     """lemma hints: for pairs of applications of the same uninterpreted special function occurring in the goal,
     prove the arguments equal (small separate queries) and hand the resulting equalities of the applications to the
     main query.  Sound: each hint is itself proved under the same hypotheses."""
     found = _apps([goal], list(HEAVY))
     hints = []
     pairs = 0
+    t_start = time.time()
     for nm in HEAVY:
         terms = list({t.get_id(): t for t in found[nm] if _ground(t)}.values())
         terms.sort(key=lambda t: len(t.sexpr()))
         for a in range(len(terms)):
             for b in range(a + 1, len(terms)):
-                if pairs >= budget_pairs:
+                if pairs >= budget_pairs or time.time() - t_start > budget_s:
                     return hints
                 t1, t2 = terms[a], terms[b]
                 pairs += 1
                 s = z3.Solver()
-                s.set("timeout", 1500)
+                s.set("timeout", 400)
                 s.add(*hyps)
                 s.add(*ax)
                 s.add(*hints)
@@ -172,6 +173,121 @@ def application_hints(eng, hyps, goal, ax, budget_pairs=300):
                 if s.check() == z3.unsat:
                     hints.append(t1 == t2)
     return hints
+
+
+def _real_consts(formulas):
+    seen, out, stack = set(), {}, list(formulas)
+    while stack:
+        t = stack.pop()
+        if t.get_id() in seen:
+            continue
+        seen.add(t.get_id())
+        if z3.is_quantifier(t):
+            stack.append(t.body())
+        elif z3.is_app(t):
+            if t.num_args() == 0 and t.decl().kind() == z3.Z3_OP_UNINTERPRETED and t.sort() in (R, I):
+                out[t.get_id()] = t
+            stack.extend(t.children())
+    return list(out.values())
+
+
+def _depth_apps(goal, names):
+    """applications of the named symbols in the goal, innermost first"""
+    found = _apps([goal], names)
+    terms = {}
+    for nm in names:
+        for t in found[nm]:
+            if _ground(t):
+                terms[t.get_id()] = t
+    return sorted(terms.values(), key=lambda t: len(t.sexpr()))
+
+
+def _ite_conditions(t):
+    seen, out, stack = set(), {}, [t]
+    while stack:
+        x = stack.pop()
+        if x.get_id() in seen:
+            continue
+        seen.add(x.get_id())
+        if z3.is_app(x):
+            if x.decl().kind() == z3.Z3_OP_ITE:
+                c = x.arg(0)
+                out[c.get_id()] = c
+            stack.extend(x.children())
+    return list(out.values())
+
+
+def prune_ites(hyps, goal, limit=80):
+    """replace if-conditions that the hypotheses decide by their truth value (each decided by a small separate query)"""
+    conds = _ite_conditions(goal)[:limit]
+    sub = []
+    for c in conds:
+        for val, neg in ((z3.BoolVal(True), z3.Not(c)), (z3.BoolVal(False), c)):
+            s = z3.Solver()
+            s.set("timeout", 600)
+            s.add(*hyps)
+            s.add(neg)
+            if s.check() == z3.unsat:
+                sub.append((c, val))
+                break
+    if not sub:
+        return goal
+    return z3.simplify(z3.substitute(goal, *sub))
+
+
+def abstraction_tactic(eng, hyps, goal, ax, timeout_ms):
+    """Prove an identity between sums of special-function terms by (i) grouping the applications of each special function
+    into classes with provably equal arguments (small polynomial queries, candidates pre-filtered by evaluating the
+    arguments at a random rational point), (ii) replacing every application by the constant of its class (innermost
+    first) and (iii) proving the abstracted goal.  Sound: equal terms are replaced by equal constants."""
+    import random
+    rng = random.Random(12345)
+    names = list(HEAVY)
+    cur_goal = z3.simplify(goal)
+    # the axiom instances must talk about the (simplified) terms that are going to be abstracted
+    cur_hyps = list(hyps) + list(ax) + instantiate_axioms(eng, [cur_goal])
+    subst_all = []
+    for _round in range(6):
+        cur_goal = z3.simplify(cur_goal)
+        apps = _depth_apps(cur_goal, names)
+        # only applications whose arguments are free of further applications (innermost layer)
+        layer = [t for t in apps if not any(_apps([a], names)[n] for a in t.children() for n in names)]
+        if not layer:
+            break
+        consts = _real_consts([cur_goal])
+        point = [(c, z3.RealVal(f"{rng.randint(11, 97)}/{rng.randint(7, 13)}") if c.sort() == R else z3.IntVal(rng.randint(2, 5))) for c in consts]
+        classes = []          # (head, representative term, const, fingerprint)
+        mapping = []
+        for t in layer:
+            try:
+                fp = tuple(z3.simplify(z3.substitute(a, *point)).sexpr() for a in t.children())
+            except z3.Z3Exception:
+                fp = None
+            hit = None
+            for cl in classes:
+                if cl[0] != t.decl().name() or (fp is not None and cl[3] is not None and cl[3] != fp):
+                    continue
+                s = z3.Solver()
+                s.set("timeout", 1500)
+                s.add(*cur_hyps)
+                s.add(z3.Not(z3.And(*[t.arg(k) == cl[1].arg(k) for k in range(t.num_args())])))
+                if s.check() == z3.unsat:
+                    hit = cl
+                    break
+            if hit is None:
+                k = z3.Real(f"abs!{len(subst_all) + len(classes)}!{_round}")
+                hit = (t.decl().name(), t, k, fp)
+                classes.append(hit)
+            mapping.append((t, hit[2]))
+        cur_goal = z3.substitute(cur_goal, *mapping)
+        cur_hyps = [z3.substitute(h, *mapping) for h in cur_hyps]
+        subst_all += mapping
+        cur_goal = prune_ites(cur_hyps, cur_goal)
+    s = z3.Solver()
+    s.set("timeout", timeout_ms)
+    s.add(*cur_hyps)
+    s.add(z3.Not(cur_goal))
+    return s.check() == z3.unsat
 
 
 def discharge(eng, name, hyps, goal, meta=None, timeout_ms=None):
@@ -191,13 +307,23 @@ def discharge(eng, name, hyps, goal, meta=None, timeout_ms=None):
     s.add(*ax)
     s.add(*cg)
     s.add(z3.Not(goal))
+    heavy_present = any(_apps([goal], list(HEAVY))[n] for n in HEAVY) and z3.is_eq(goal)
+    if heavy_present and meta.get("kind") not in ("canary",):
+        try:
+            if abstraction_tactic(eng, list(hyps), goal, ax + cg, 4000):
+                return Result(name, "proved", "z3-abstraction", time.time() - t0, meta=_meta_out(meta))
+        except z3.Z3Exception:
+            pass
     s.set("timeout", min(timeout_ms or Z3_TIMEOUT_MS, 4000))
     r = s.check()
-    if r == z3.unknown:
-        # second attempt with proved congruence hints for the special-function applications
-        hints = application_hints(eng, list(hyps), goal, ax + cg)
+    if r == z3.unknown and not heavy_present:
+        # second attempt: abstraction of the special-function applications into classes with provably equal arguments
+        try:
+            if abstraction_tactic(eng, list(hyps), goal, ax + cg, timeout_ms or Z3_TIMEOUT_MS):
+                return Result(name, "proved", "z3-abstraction", time.time() - t0, meta=_meta_out(meta))
+        except z3.Z3Exception:
+            pass
         s.set("timeout", timeout_ms or Z3_TIMEOUT_MS)
-        s.add(*hints)
         r = s.check()
     dt = time.time() - t0
     if r == z3.unsat:
